@@ -53,6 +53,23 @@ def strategy(tier):
     return cases(tier)
 
 
+def configured_omega(case):
+    "10^-omega as configured: the caller's option, else the documented default (guarded p//2, fixed 2p//3, rational 10; meek-prf 6)"
+    if case['rule'] == 'meek-prf':
+        return Fraction(1, 10 ** 6)
+    o = case.get('options') or {}
+    a = o.get('arithmetic', 'guarded')
+    if 'omega' in o:
+        k = int(o['omega'])
+    elif a == 'rational':
+        k = 10
+    elif a == 'fixed':
+        k = int(o.get('precision', 9)) * 2 // 3
+    else:
+        k = int(o.get('precision', 18)) // 2
+    return Fraction(1, 10 ** k)
+
+
 def check(case):
     res = Result()
     rule = case['rule']
@@ -69,7 +86,7 @@ def check(case):
         res.fail('count-raises', 'count-raises|%s|%s' % (base, exc_sig(o.exc)), repr(o.exc))
     ar = o.arith
     n = Fraction(o.nballots)
-    omega = frac(o.record.get('omega')) if o.record.get('omega') is not None else None
+    omega = configured_omega(case)      # from the options as given, never from the record (the rule reports its own internal value there)
     acts = o.actions
     kf_lt_1 = False
     last_iter = None        # kind of the last iteration end in this round
@@ -165,6 +182,6 @@ def valid_case(case):
     if case['rule'] in ('meek', 'warren'):
         if o.get('precision', 1) < 1 or (o.get('arithmetic') == 'fixed' and o.get('precision', 9) < 1):
             return False
-        if o.get('omega', 0) > o.get('precision', 18 if o.get('arithmetic', 'guarded') == 'guarded' else 9) and o.get('arithmetic') != 'rational':
+        if o.get('omega', 0) > o.get('precision', 18 if o.get('arithmetic', 'guarded') == 'guarded' else 9) + 12 and o.get('arithmetic') != 'rational':
             return False
     return model.valid(case)
